@@ -159,11 +159,18 @@ async fn write_one(pt: &mut PacketTransport<crate::conn::SimConn>, f: &FrameSpec
     } else {
         let body = f.body();
         let text = String::from_utf8(body[1..].to_vec()).unwrap();
-        pt.write_packet(&packets::PrintLine {
-            attribute: body[0],
-            text,
-        })
-        .await
+        // (no exhaustive struct literal: the value is decoded from a minimal frame and its known fields assigned)
+        use zvt::ZvtSerializer;
+        let mut line = match packets::PrintLine::zvt_deserialize(&[0x06, 0xd1, 0x02, 0x00, 0x41]) {
+            Ok((l, _)) => l,
+            Err(e) => {
+                eprintln!("HARNESS ERROR: the library does not decode a minimal print line: {e:?}");
+                std::process::exit(2)
+            }
+        };
+        line.attribute = body[0];
+        line.text = text;
+        pt.write_packet(&line).await
     }
 }
 
@@ -343,7 +350,18 @@ fn run_plan(plan: &C04Plan, want_trace: bool) -> RunOut {
     // (see below: a reader may give a packet up during a long stall; what it does with the rest of
     // the stream afterwards - mis-framed by then - is not judged, a dead end included)
     // (a transient read error is judged like a long stall at its offset: the packet may be given up there)
-    let early_long_stall: Option<u64> = plan.stalls.iter().filter(|(_, ms)| *ms >= 1000).map(|(off, _)| *off as u64).chain(plan.read_errs.iter().map(|(off, _)| *off as u64)).min();
+    // (accumulated silence of 200 ms - the specification's inter-character time-out - or more)
+    let mut sorted_stalls: Vec<(u32, u32)> = plan.stalls.clone();
+    sorted_stalls.sort();
+    let mut cum = 0u64;
+    let mut stall_points: Vec<u64> = vec![];
+    for (off, ms) in &sorted_stalls {
+        cum += *ms as u64;
+        if cum >= crate::exchange::STALL_MS {
+            stall_points.push(*off as u64);
+        }
+    }
+    let early_long_stall: Option<u64> = stall_points.iter().copied().chain(plan.read_errs.iter().map(|(off, _)| *off as u64)).min();
     let gave_up_early = match early_long_stall {
         Some(s) => {
             got.frames.iter().enumerate().any(|(i, f)| f.0.is_err() && ends.get(i).map(|e| *e > s).unwrap_or(true))
@@ -368,7 +386,7 @@ fn run_plan(plan: &C04Plan, want_trace: bool) -> RunOut {
         // whatever write_packet_with_ack makes of an acknowledgement that carries data, it must have
         // consumed exactly that packet
         if let Some((ok, cur)) = *ack_seen.lock().unwrap() {
-            let stalled_inside = plan.stalls.iter().any(|(off, ms)| *ms >= 1000 && (*off as u64) < ack_len) || plan.read_errs.iter().any(|(off, _)| (*off as u64) < ack_len);
+            let stalled_inside = stall_points.iter().any(|off| *off < ack_len) || plan.read_errs.iter().any(|(off, _)| (*off as u64) < ack_len);
             if cur != ack_len && !(stalled_inside && !ok) {
                 out.fail(
                     if cur > ack_len { "read_ahead" } else { "under_read" },
